@@ -150,30 +150,59 @@ Proof.
     apply bytes_eqb_eq in E'. subst. rewrite has_prefix_app in H. discriminate.
 Qed.
 
-(* the labels Felix evaluates selectors on, for a pod *)
+Lemma lookup_sa_profile_other : forall k sa sal, has_prefix k PCSA = false -> lookup k (sa_profile_labels sa sal) = None.
+Proof.
+  intros k sa sal H. unfold sa_profile_labels. cbn [lookup].
+  destruct (bytes_eqb k (PCSA ++ L_NAME)) eqn:E.
+  - apply bytes_eqb_eq in E. subst. rewrite has_prefix_app in H. discriminate.
+  - clear E. induction sal as [|[k' v] l IH]; cbn [map lookup fst snd]; auto.
+    destruct (bytes_eqb k (PCSA ++ k')) eqn:E'; auto.
+    apply bytes_eqb_eq in E'. subst. rewrite has_prefix_app in H. discriminate.
+Qed.
+
+(* the labels Felix evaluates selectors on, for a pod: own labels, then the kns.<namespace> profile, then the
+   ksa.<namespace>.<serviceaccount> profile *)
 Definition cal_labels (cl : cluster) (p : pod) : labels :=
-  effective (wep_labels (pod_ns p) (pod_sa p) (pod_labels p)) [profile_labels (pod_ns p) (ns_labels cl (pod_ns p))].
+  effective (ce_labels (cep_of_pod cl p)) (ce_parents (cep_of_pod cl p)).
 
 Lemma reserved_false_pcns : forall k, reserved_prefix k = false -> has_prefix k PCNS = false.
 Proof. unfold reserved_prefix. intros k H. apply orb_false_iff in H. tauto. Qed.
+Lemma reserved_false_pcsa : forall k, reserved_prefix k = false -> has_prefix k PCSA = false.
+Proof. unfold reserved_prefix. intros k H. apply orb_false_iff in H. tauto. Qed.
+
+(* keys outside the pcsa. space never come from the service-account profile *)
+Lemma cal_lookup_gen : forall cl p k, has_prefix k PCSA = false ->
+  lookup k (cal_labels cl p) =
+  match lookup k (wep_labels (pod_ns p) (pod_sa p) (pod_labels p)) with
+  | Some v => Some v
+  | None => lookup k (profile_labels (pod_ns p) (ns_labels cl (pod_ns p)))
+  end.
+Proof.
+  intros cl p k H. unfold cal_labels, cep_of_pod. cbn [ce_labels ce_parents].
+  rewrite lookup_effective_cons.
+  destruct (lookup k (wep_labels _ _ _)); auto. destruct (lookup k (profile_labels _ _)); auto.
+  destruct (pod_sa p) as [|c sa]; [reflexivity|]. cbn [concat]. rewrite lookup_app.
+  rewrite lookup_sa_profile_other by auto. reflexivity.
+Qed.
 
 Lemma cal_lookup_unreserved : forall cl p k, unreserved_key k = true -> lookup k (cal_labels cl p) = lookup k (pod_labels p).
 Proof.
-  intros cl p k H. unfold cal_labels. rewrite lookup_effective_cons. rewrite lookup_wep_unreserved by auto.
+  intros cl p k H. pose proof (unreserved_key_spec k H) as (R & _).
+  rewrite cal_lookup_gen by (apply reserved_false_pcsa; auto). rewrite lookup_wep_unreserved by auto.
   destruct (lookup k (pod_labels p)); auto.
-  apply unreserved_key_spec in H. destruct H as (R & _).
   rewrite lookup_profile_other by (apply reserved_false_pcns; auto). reflexivity.
 Qed.
 Lemma cal_lookup_namespace : forall cl p, lookup L_NAMESPACE (cal_labels cl p) = Some (pod_ns p).
-Proof. intros. unfold cal_labels. rewrite lookup_effective_cons, lookup_wep_namespace. reflexivity. Qed.
+Proof. intros. rewrite cal_lookup_gen by reflexivity. rewrite lookup_wep_namespace. reflexivity. Qed.
 Lemma cal_lookup_orch : forall cl p, lookup L_ORCH (cal_labels cl p) = Some V_K8S.
-Proof. intros. unfold cal_labels. rewrite lookup_effective_cons, lookup_wep_orch. reflexivity. Qed.
+Proof. intros. rewrite cal_lookup_gen by reflexivity. rewrite lookup_wep_orch. reflexivity. Qed.
+Lemma pcns_not_pcsa : forall k, has_prefix (PCNS ++ k) PCSA = false.
+Proof. intros. reflexivity. Qed.
 Lemma cal_lookup_pcns : forall cl p k, ns_key_ok k = true ->
   lookup (PCNS ++ k) (cal_labels cl p) = lookup k (ns_labels cl (pod_ns p)).
 Proof.
   intros cl p k H. unfold ns_key_ok in H. apply negb_true_iff in H.
-  unfold cal_labels. rewrite lookup_effective_cons, lookup_wep_pcns, lookup_profile_pcns by auto.
-  destruct (lookup k _); reflexivity.
+  rewrite cal_lookup_gen by apply pcns_not_pcsa. rewrite lookup_wep_pcns, lookup_profile_pcns by auto. reflexivity.
 Qed.
 
 (* ------------------------------------------------------------------ converted selector terms *)
